@@ -1514,7 +1514,7 @@ func (g *gen) switchStmt() {
 					items[0] = fmt.Sprintf("id(%d)", v)
 				}
 				if g.r.Intn(3) == 0 {
-					items = append(items, "id("+g.expr(tInt, 1)+")") // never a constant: duplicate constant cases do not compile
+					items = append(items, "id("+g.atom(tInt)+")") // never a constant (duplicate constant cases do not compile), and without calls: si is the only side effect of the list
 				}
 				g.line("case %s:", strings.Join(items, ", "))
 			} else if g.r.Intn(4) == 0 && !g.off("switch-multi-value-case") {
